@@ -549,5 +549,37 @@ func zzCheckRoutes(tag string, r *Router[*hnd], m *zzModel, trace bool) {
 		got, ok := rs[rt.p]
 		zzv.Assert(ok, tag+":routes-misses-live-pattern")
 		zzv.Assert(zzJoin(got) == zzJoin(zzAllowSet(rt.ms, trace)), tag+":routes-method-set")
+		zzCheckStrictURL(tag, r, rt.p, true)
+	}
+}
+
+// zzCheckStrictURL: strict URL building of pattern with the witness values: for a live pattern it
+// yields the witness path when every value satisfies its rule and fails otherwise; for a pattern
+// that is not live it fails. (Patterns with the uninterpreted interceptor "u" are skipped.)
+func zzCheckStrictURL(tag string, r *Router[*hnd], pattern string, live bool) {
+	params := map[string]string{}
+	valid := true
+	for _, t := range zzTokenize(pattern) {
+		if !t.param {
+			continue
+		}
+		if t.rule == "u" {
+			return
+		}
+		v := "7"
+		if t.rule == "[a-c]+" || t.rule == "[a-z]+" {
+			v = "b"
+		}
+		params[t.name] = v
+		if !zzValueOK(t.rule, v) {
+			valid = false
+		}
+	}
+	got, err := r.URL(true, pattern, params)
+	if live && valid {
+		w := zzWitness(pattern) // (the routers of C19 are built with WithURLDomain("http://d"))
+		zzv.Assert(err == nil && (got == w || got == "http://d"+w), tag+":strict-URL-of-a-live-route-fails-or-differs")
+	} else {
+		zzv.Assert(err != nil, tag+":strict-URL-of-a-dead-pattern-or-invalid-value-succeeds")
 	}
 }
